@@ -20,6 +20,9 @@ This module ties the model to py7zr and explores py7zr with the model and the se
   sequential path raises, the outputs must be the sequential ones up to the damaged folder and complete after;
 * two SevenZipFile objects extracting the same archive file at once, workers of both interleaved (FN 245);
 * an audit hook on `open`: every worker opens the archive itself, exactly once, by name;
+* a second scheduler at the granularity of single file-system calls (FsRun: exists/is_dir/mkdir/open/... of a worker on a
+  path under the destination is one step; lockstep, serial and random policies) on archives whose folders share parent
+  directories that are not in the archive: the result must be the sequential one under every policy;
 * which path runs (threads / caller) against select_mode (FN 243); output names against outnames (FN 244);
 * the archives with members a_0 | a | a and a | a | a_0 | a (output names collided before commit 5112351; now all
   paths must agree under every order), and the two-damaged-folders archive of the Coq witness.
@@ -60,8 +63,9 @@ TRUSTED_BASE = [
     "CPython 3.12 threading/multiprocessing (fork start method), Linux file semantics for concurrent writers",
 ]
 ASSUMPTIONS = [
-    "interleavings are at output-operation granularity (create, write of one chunk); races inside one write or inside "
-    "the C decoders are not explored (DESIGN.md: partial below write granularity)",
+    "interleavings are at output-operation granularity (create, write of one chunk) and, for the directory tree, at the "
+    "granularity of single pathlib/os calls; races inside one system call or inside the C decoders are not explored "
+    "(DESIGN.md: partial below that granularity)",
     "a worker's actions depend only on its own folder's packed bytes: checked on every run (per-worker trace equals the "
     "trace of the same folder extracted sequentially), not proved about the decoders",
     "process-parallel runs (mp=True) cannot be scheduled by the harness: they run free, a few cases per tier",
@@ -1115,6 +1119,226 @@ def explore_modes(model, rec, workdir):
                           match_keys={"kind": "model-disagrees", "path": "select_mode"})
 
 
+# ------------------------------------------------------------------ file-system call granularity
+_FS = None
+_FS_TL = threading.local()
+_FS_PATH_METHODS = ["exists", "is_dir", "is_file", "is_symlink", "mkdir", "open", "unlink", "symlink_to", "touch", "rmdir", "rename",
+                    "replace", "write_bytes"]
+_FS_OS_FUNCS = [(os, "mkdir"), (os, "makedirs"), (os, "unlink"), (os, "remove"), (os, "symlink"), (os, "rmdir"), (os, "rename"),
+                (os.path, "exists"), (os.path, "isdir"), (os.path, "isfile"), (os.path, "lexists")]
+
+
+class FsRun:
+    """A second scheduler, one level below the output operations: every file-system call a worker thread makes on a path
+    under the destination (pathlib exists/is_dir/mkdir/open/unlink/..., os.mkdir/os.path.exists/...) is one step.  Only one
+    worker runs at a time and it is stopped before each of its steps; `policy` decides who takes the next step, so the
+    windows between a worker's test of the directory tree and its next change of it are all opened deliberately."""
+
+    def __init__(self, policy, rng, root, expected, timeout=5.0):
+        self.cv = threading.Condition()
+        self.policy, self.rng, self.root, self.timeout = policy, rng, root, timeout
+        self.expected = expected      # workers py7zr is going to start (one per folder): no step before all of them exist
+        self.state = {}
+        self.granted = None
+        self.free = False
+        self.trace = []
+        self.problems = []
+        self.threads = []
+        self.round = []
+
+    def register(self, thread):
+        key = len(self.state)
+        self.state[key] = "free"
+        self.threads.append(thread)
+        return key
+
+    def _maybe_grant(self):
+        if self.granted is not None or len(self.state) < self.expected or any(v in ("free", "running") for v in self.state.values()):
+            return
+        waiting = sorted(k for k, v in self.state.items() if v == "waiting")
+        if not waiting:
+            return
+        if self.policy == "random":
+            k = self.rng.choice(waiting)
+        elif self.policy in ("serial", "serial-rev"):
+            k = waiting[0] if self.policy == "serial" else waiting[-1]
+        else:       # lockstep: everybody takes one step per round, in key order (or reversed)
+            self.round = [x for x in self.round if x in waiting]
+            if not self.round:
+                self.round = list(waiting if self.policy == "lockstep" else reversed(waiting))
+            k = self.round.pop(0)
+        self.granted = k
+        self.cv.notify_all()
+
+    def step(self, key, op, path):
+        with self.cv:
+            self.state[key] = "waiting"
+            while not self.free:
+                self._maybe_grant()
+                if self.granted == key:
+                    break
+                if not self.cv.wait(self.timeout):
+                    self.free = True
+                    self.problems.append("file-system scheduler timeout: worker %d waiting for %s" % (key, op))
+                    self.cv.notify_all()
+                    break
+            self.granted = None
+            self.state[key] = "running"
+            self.trace.append((key, op, os.path.relpath(path, self.root)))
+
+    def finish(self, key):
+        with self.cv:
+            self.state[key] = "done"
+            self._maybe_grant()
+            self.cv.notify_all()
+
+    def release_all(self):
+        with self.cv:
+            self.free = True
+            self.cv.notify_all()
+
+
+class FsThread(threading.Thread):
+    def __init__(self, *a, **kw):
+        super().__init__(*a, **kw)
+        self.daemon = True
+        self.fs_run = _FS
+        self.fs_key = self.fs_run.register(self) if self.fs_run is not None else None
+
+    def run(self):
+        try:
+            super().run()
+        finally:
+            if self.fs_run is not None:
+                self.fs_run.finish(self.fs_key)
+
+
+def _fs_wrap(orig, name):
+    def wrapper(*a, **kw):
+        c = _FS
+        t = threading.current_thread()
+        if c is not None and a and getattr(t, "fs_run", None) is c and not getattr(_FS_TL, "depth", 0):
+            try:
+                sp = os.fspath(a[0])
+            except TypeError:
+                sp = None
+            if isinstance(sp, str) and (sp == c.root or sp.startswith(c.root + os.sep)):
+                c.step(t.fs_key, name, sp)
+                _FS_TL.depth = 1
+                try:
+                    return orig(*a, **kw)
+                finally:
+                    _FS_TL.depth = 0
+        return orig(*a, **kw)
+    return wrapper
+
+
+class FsPatched:
+    def __init__(self, run, limit):
+        self.run, self.limit = run, limit
+
+    def __enter__(self):
+        global _FS
+        self.saved = [(P, "Thread", P.Thread), (P, "get_memory_limit", P.get_memory_limit)]
+        P.Thread = FsThread
+        lim = self.limit
+        P.get_memory_limit = lambda: lim
+        for m in _FS_PATH_METHODS:
+            if hasattr(pathlib.Path, m):
+                self.saved.append((pathlib.Path, m, getattr(pathlib.Path, m)))
+                setattr(pathlib.Path, m, _fs_wrap(getattr(pathlib.Path, m), m))
+        for mod, m in _FS_OS_FUNCS:
+            self.saved.append((mod, m, getattr(mod, m)))
+            setattr(mod, m, _fs_wrap(getattr(mod, m), "os." + m))
+        _FS = self.run
+        return self
+
+    def __exit__(self, *a):
+        global _FS
+        self.run.release_all()
+        for t in self.run.threads:
+            t.join(20)
+            if t.is_alive():
+                self.run.problems.append("a worker thread is still alive after extractall returned and 20 s")
+        _FS = None
+        for obj, m, v in reversed(self.saved):
+            setattr(obj, m, v)
+        return False
+
+
+def fs_cases(rng, n_random):
+    def fo(chain, *ms):
+        return {"chain": chain, "members": [[n, d.hex()] for n, d in ms]}
+    cases = [
+        {"folders": [fo("copy", ("d/a", b"A" * 9)), fo("copy", ("d/b", b"B" * 7))], "limit": 64},
+        {"folders": [fo("copy", ("d/e/a", b"A" * 20)), fo("lzma2", ("d/e/b", b"B" * 33)), fo("copy", ("d/c", b"C" * 5))], "limit": 16},
+        {"folders": [fo("lzma2", ("p/q/r/x", b"xy" * 30), ("p/q/r/x2", b"")), fo("lzma2", ("p/q/y", b"Y" * 40), ("p/z", b"Z"))], "limit": 64},
+        {"folders": [fo("copy", ("top", b"T"), ("s/t/u", b"U" * 11)), fo("copy", ("s/t/v", b"V" * 3), ("s/w", b"W" * 8))], "limit": 8},
+    ]
+    dirs = ["m", "m/n", "m/n/o", "k", "k/l"]
+    for _ in range(n_random):
+        nf = rng.choice([2, 2, 3, 4])
+        used, folders = set(), []
+        for f in range(nf):
+            ms = []
+            for _ in range(rng.choice([1, 1, 2])):
+                nm = "%s/f%d" % (rng.choice(dirs), len(used))
+                used.add(nm)
+                ms.append((nm, gen_data(rng, rng.choice([1, 7, 30]))))
+            folders.append(fo(rng.choice(["copy", "copy", "lzma2"]), *ms))
+        cases.append({"folders": folders, "limit": rng.choice([8, 64])})
+    return cases
+
+
+def fs_extract(path, case, policy, rng, workdir):
+    out = os.path.join(workdir, "fsout")
+    shutil.rmtree(out, ignore_errors=True)
+    run = FsRun(policy, rng, out, len(case["folders"]))
+    with FsPatched(run, case["limit"]):
+        try:
+            with py7zr.SevenZipFile(path, "r") as z:
+                z.extractall(path=out)
+            res = ["ok"]
+        except Exception as e:  # noqa
+            res = exc_tuple(e)
+    return res, snapshot(out), run
+
+
+def explore_fs_races(model, rec, workdir, n_random=4, n_policies=4, seed=0):
+    """thread-parallel extraction to a directory, interleaved at single file-system calls: members of different folders
+    share parent directories that are not in the archive and do not exist yet"""
+    rng = random.Random(seed)
+    for ci, case in enumerate(fs_cases(rng, n_random)):
+        d = os.path.join(workdir, "fs%d" % ci)
+        os.makedirs(d)
+        path, lay = build(case, d)
+        seqout = os.path.join(d, "seq")
+        with py7zr.SevenZipFile(io.BytesIO(open(path, "rb").read()), "r") as z:
+            z.extractall(path=seqout)
+        want = snapshot(seqout)
+        policies = ["lockstep", "lockstep-rev", "serial", "serial-rev"] + ["random"] * n_policies
+        for pi, pol in enumerate(policies):
+            prng = random.Random((seed, ci, pi).__hash__())
+            res, outs, run = fs_extract(path, case, pol, prng, d)
+            workers = len(run.state)
+            rec.count(("fs", ci, pi, pol), nontrivial=workers >= 2 and len(run.trace) >= 2 * workers)
+            rec.dist("fs_policy", pol)
+            rec.extra_add("fs_steps", len(run.trace))
+            if run.problems:
+                rec.violation("file-system interleaving run: %s" % run.problems[0],
+                              {"kind": "fs-race", "case": case, "policy": pol, "policy_index": pi, "seed": seed, "case_index": ci,
+                               "problem": run.problems[0]}, concrete=False, match_keys={"kind": "harness-scheduler"})
+                continue
+            if res != ["ok"] or outs != want:
+                rec.violation("parallel extraction of an intact archive under the file-system interleaving %s gives %s, %d of %d files "
+                              "as the sequential path (steps: %s)" % (pol, res, sum(1 for k in want if outs.get(k) == want[k]), len(want),
+                                                                      " ".join("%d:%s(%s)" % t for t in run.trace[:12])),
+                              {"kind": "fs-race", "case": case, "policy": pol, "policy_index": pi, "seed": seed, "case_index": ci,
+                               "trace": [list(t) for t in run.trace]},
+                              match_keys={"kind": "fs-race"})
+                return
+
+
 # ------------------------------------------------------------------ case generation
 def gen_data(rng, n):
     t = rng.choice(["text", "period", "random"])
@@ -1279,7 +1503,10 @@ def run(ctx):
     wd = tempfile.mkdtemp(prefix="c13s_")
     try:
         rec = Rec()
-        for part in (explore_collision, explore_two_damaged, explore_modes):
+        fs_part = lambda m, r, w: explore_fs_races(m, r, w, n_random=4 if tier == "quick" else 40,  # noqa
+                                                   n_policies=4 if tier == "quick" else 24, seed=ctx["seed"])
+        fs_part.__name__ = "explore_fs_races"
+        for part in (explore_collision, explore_two_damaged, explore_modes, fs_part):
             sub = os.path.join(wd, part.__name__)
             os.makedirs(sub)
             try:
@@ -1387,6 +1614,19 @@ def replay(d):
             if case.get("damage"):
                 return 1 if (res[0] == "ok" or res[1] != ref["result"][1]) else 0
             return 1 if (res != ["ok"] or outs != ref["outs"]) else 0
+        if kind == "fs-race":
+            case = r["case"]
+            path, lay = build(case, wd)
+            seqout = os.path.join(wd, "seq")
+            with py7zr.SevenZipFile(io.BytesIO(open(path, "rb").read()), "r") as z:
+                z.extractall(path=seqout)
+            want = snapshot(seqout)
+            prng = random.Random((r["seed"], r["case_index"], r["policy_index"]).__hash__())
+            res, outs, frun = fs_extract(path, case, r["policy"], prng, wd)
+            print("sequential path:", hexouts(want))
+            print("parallel path under %s:" % r["policy"], res, hexouts(outs))
+            print("steps:", " ".join("%d:%s(%s)" % t for t in frun.trace))
+            return 1 if (res != ["ok"] or outs != want) else 0
         if kind == "modes":
             rec = Rec()
             model = vlib.Model()
